@@ -139,10 +139,20 @@ impl<'a> Cx<'a> {
         let l = self.boolean(&b.left, &mut pre)?;
         let mut rp = vec![];
         let r = self.boolean(&b.right, &mut rp)?;
+        let is_and = matches!(b.op, BinOp::And(_));
         if !rp.is_empty() {
-          return Err(format!("short-circuit operand with effects `{}`", toks(b)));
+          // the right operand is only evaluated when the left one does not decide the result
+          let rb = self.branch(rp, r);
+          let sc = self.branch(vec![], if is_and { "false".into() } else { "true".into() });
+          let rhs = if is_and {
+            format!("(if {} then {}\n  else {})", l, rb, sc)
+          } else {
+            format!("(if {} then {}\n  else {})", l, sc, rb)
+          };
+          let t = self.bind(&mut pre, rhs);
+          return Ok((pre, t, Kind::Bool));
         }
-        let op = if matches!(b.op, BinOp::And(_)) { "&&" } else { "||" };
+        let op = if is_and { "&&" } else { "||" };
         Ok((pre, format!("({} {} {})", l, op, r), Kind::Bool))
       }
       BinOp::Eq(_) | BinOp::Ne(_) => {
@@ -456,6 +466,28 @@ impl<'a> Cx<'a> {
     s
   }
 
+  fn is_panic(e: &Expr) -> bool {
+    match strip(e) {
+      Expr::Macro(m) => m.mac.path.is_ident("panic") || m.mac.path.is_ident("unreachable"),
+      Expr::Block(b) if b.block.stmts.len() == 1 => match &b.block.stmts[0] {
+        Stmt::Expr(x, _) => Self::is_panic(x),
+        Stmt::Macro(m) => m.mac.path.is_ident("panic") || m.mac.path.is_ident("unreachable"),
+        _ => false,
+      },
+      _ => false,
+    }
+  }
+
+  /// a match arm / if branch as one term; `None` kind = the arm diverges (panic!)
+  fn arm(&mut self, e: &Expr) -> R<(String, Option<Kind>)> {
+    if Self::is_panic(e) {
+      let t = if self.pure { "(Except.error .explicit)" } else { "(GM.throw .explicit)" };
+      return Ok((t.to_string(), None));
+    }
+    let (p, a, k) = self.expr(e)?;
+    Ok((self.branch(p, a), Some(k)))
+  }
+
   fn if_expr(&mut self, i: &ExprIf) -> R<Ex> {
     let mut pre = vec![];
     let c = self.boolean(&i.cond, &mut pre)?;
@@ -657,14 +689,18 @@ impl<'a> Cx<'a> {
           if let Some(v) = pat.strip_prefix("Some(").and_then(|x| x.strip_suffix(")")) {
             let depth = self.vars.len();
             self.vars.push((v.to_string(), format!("v_{}", v), Kind::Nat));
-            let ex = self.expr(&arm.body)?;
+            let (t, k) = self.arm(&arm.body)?;
             self.vars.truncate(depth);
-            kind = Some(ex.2);
-            some_arm = Some(format!("  | some v_{} => {}", v, self.branch(ex.0, ex.1)));
+            if k.is_some() {
+              kind = k;
+            }
+            some_arm = Some(format!("  | some v_{} => {}", v, t));
           } else if pat == "None" {
-            let ex = self.expr(&arm.body)?;
-            kind = Some(ex.2);
-            none_arm = Some(format!("  | none => {}", self.branch(ex.0, ex.1)));
+            let (t, k) = self.arm(&arm.body)?;
+            if k.is_some() {
+              kind = k;
+            }
+            none_arm = Some(format!("  | none => {}", t));
           } else {
             return Err(format!("Option pattern `{}`", pat));
           }
@@ -672,7 +708,7 @@ impl<'a> Cx<'a> {
         match (some_arm, none_arm) {
           (Some(s), Some(n)) => {
             let t = self.bind(&mut pre, format!("(match {} with\n{}\n{})", sa, s, n));
-            Ok((pre, t, kind.unwrap()))
+            Ok((pre, t, kind.ok_or("every arm diverges")?))
           }
           _ => Err("Option match not exhaustive".into()),
         }
